@@ -241,7 +241,9 @@ func c16Menu(in c16Init, full bool) []string {
 	tids := []string{"1", "7", "0", "-1", "9223372036854775808", "abc"}
 	targets := []string{"v:2", "v:1", "zz:1", "v:", ":1", "v:x", "v", "v:2:3", "v:99999999999999999999"}
 	names := []string{"a", "x", "1a", "y"}
-	exprs := []string{"1", "1+", "a", "{{", "x := 1", "[1,2]", "1 2"}
+	// expressions that call a function defined by the debugged program are in
+	// the separate scenario inject-program-function (known finding C16-inject)
+	exprs := []string{"1", "1+", "a", "{{", "x := 1", "[1,2]", "1 2", "len(a)", "nofunc(1)"}
 	var m []string
 	add := func(s string) { m = append(m, s) }
 	for _, c := range []string{"break", "rmbreak", "disablebreak"} {
@@ -393,6 +395,123 @@ func init() {
 					}
 					return fmt.Sprintf("%s states=%d transitions=%d maxdepth=%d", o, states, trans, maxDepth), v
 				}
+			}})
+	}
+}
+
+// inject with an expression that calls a function of the debugged program
+func init() {
+	register(&Scenario{Prop: "C16", Name: "inject-program-function", Quick: 0, Thor: 0, FreeQuick: -1, FreeThor: -1,
+		Desc: "thread suspended inside f (state call1); command `inject 1 y f(1)`: the expression calls a function defined by the debugged program",
+		Make: func() (func(), func(e *vsched.Exec) (string, *vsched.Violation)) {
+			var probs []string
+			body := func() {
+				probs = nil
+				s, p := c16Start(c16Inits[3])
+				if p != "" {
+					probs = append(probs, p)
+					return
+				}
+				s.dbg.HandleInput("rmbreak v")
+				if prob, _ := s.apply("inject 1 y f(1)"); prob != "" {
+					probs = append(probs, prob)
+				}
+				if p := s.finish(); p != "" {
+					probs = append(probs, p)
+				}
+			}
+			chk := c15Check(func() []string { return probs })
+			return body, func(e *vsched.Exec) (string, *vsched.Violation) {
+				o, v := chk(e)
+				if v != nil && strings.HasPrefix(v.Key, "deadlock:") {
+					v.Key = "inject never returns: expression calls a function of the debugged program"
+				}
+				return o, v
+			}
+		}})
+}
+
+// concurrent: a second program thread keeps running (function calls take the
+// debugger's write lock) while a command is handled for the suspended thread.
+func init() {
+	cmds := []string{"cont 1 stepout", "cont 1 resume", "cont 1 stepin", "cont 1 stepover", "status", "describe 1", "extract 1 a g1", "inject 1 a 1", "lockstate", "rmbreak v", "break w:2", "describe 2", "cont 2 resume"}
+	for _, cmd := range cmds {
+		cmd := cmd
+		register(&Scenario{Prop: "C16", Name: "concurrent-" + strings.Replace(cmd, " ", "_", -1), Quick: 1, Thor: 2, FreeQuick: 1, FreeThor: 2,
+			Desc: "thread 1 suspended at a top-level breakpoint, thread 2 running function calls (step-in/out take the debugger's write lock); the command `" + cmd + "` followed by `status` under every schedule within the bound",
+			Make: func() (func(), func(e *vsched.Exec) (string, *vsched.Violation)) {
+				var probs []string
+				body := func() {
+					probs = nil
+					s, p := c16Start(c16Init{name: "top", src: "a := 1\nb := 2\nc := 3", breaks: []int{2}})
+					if p != "" {
+						probs = append(probs, p)
+						return
+					}
+					ast2, err := parser.ParseWithRuntime("w", "func f(x) {\n  return x\n}\nf(1)\nf(2)", s.en.erp)
+					if err == nil {
+						err = ast2.Runtime.Validate()
+					}
+					if err != nil {
+						probs = append(probs, "setup: "+err.Error())
+						return
+					}
+					tid2 := s.en.erp.NewThreadID()
+					done2 := false
+					var wg2 vsched.WaitGroup
+					wg2.Add(1)
+					vsched.GoNamed("T2", func() {
+						defer func() {
+							if r := recover(); r != nil {
+								s.tpanic = fmt.Sprint(r)
+							}
+							done2 = true
+							wg2.Done()
+						}()
+						ast2.Runtime.Eval(s.en.vs.NewChild("t2"), make(map[string]interface{}), tid2)
+						s.dbg.RecordThreadFinished(tid2)
+					})
+					// the command is handled while T2 runs
+					var res interface{}
+					var herr error
+					pan := func() (p string) {
+						defer func() {
+							if r := recover(); r != nil {
+								p = fmt.Sprint(r)
+							}
+						}()
+						res, herr = s.dbg.HandleInput(cmd)
+						if herr == nil {
+							if _, jerr := json.Marshal(res); jerr != nil {
+								p = "result is not JSON-encodable: " + jerr.Error()
+							}
+						}
+						_, herr = s.dbg.HandleInput("status")
+						return ""
+					}()
+					if pan != "" {
+						probs = append(probs, "panic: "+pan)
+					}
+					if herr != nil {
+						probs = append(probs, "status fails afterwards: "+herr.Error())
+					}
+					for i := 0; !(done2 && s.done); i++ {
+						s.dbg.StopThreads(0)
+						vsched.Quiesce()
+						if i > 30 {
+							probs = append(probs, "suspended threads cannot be released by StopThreads")
+							break
+						}
+					}
+					if done2 && s.done {
+						wg2.Wait()
+						s.wg.Wait()
+					}
+					if s.tpanic != "" {
+						probs = append(probs, "program thread panicked: "+s.tpanic)
+					}
+				}
+				return body, c15Check(func() []string { return probs })
 			}})
 	}
 }
